@@ -28,13 +28,14 @@ def run(cases, tag="Optc", timeout=300):
         if not batch:
             return
         path = os.path.join(common.GEN, f"{tag}_{len(files)}.v")
-        t = ("From Coq Require Import ZArith List String Uint63.\nFrom FFCX Require Import LN Enc Opt.\n"
+        t = ("From Coq Require Import ZArith List String Uint63.\nFrom FFCX Require Import LN Enc Opt Footprint OptSound.\n"
              "Import ListNotations.\nOpen Scope string_scope.\n")
         for k, c in enumerate(batch):
             t += f"Definition b{k} : list item :=\n{ffx.coq_items(c['before'])}.\n"
             t += f"Definition a{k} : list item :=\n{ffx.coq_items(c['after'])}.\n"
         t += "Eval vm_compute in [" + "; ".join(
             f"opt_matches [{'; '.join(str(x) for x in c['temps'])}]%positive b{k} a{k}" for k, c in enumerate(batch)) + "].\n"
+        t += "Eval vm_compute in (0%nat, [" + "; ".join(f"opt_ok b{k}" for k in range(len(batch))) + "]).\n"
         open(path, "w").write(t)
         files[path] = list(meta)
         batch.clear()
@@ -72,6 +73,14 @@ def run(cases, tag="Optc", timeout=300):
     for path, metas in files.items():
         rc, so, se = out[path]
         mm = re.search(r"=\s*\[(.*?)\]\s*:\s*list bool", so, re.S) if rc == 0 else None
+        m2 = re.search(r"=\s*\(0%nat,\s*\[(.*?)\]\)", so, re.S) if rc == 0 else None
+        if m2:
+            oks = [x.strip() == "true" for x in m2.group(1).split(";")]
+            info["side_condition_true"] = info.get("side_condition_true", 0) + sum(oks)
+            info["side_condition_false"] = info.get("side_condition_false", 0) + (len(oks) - sum(oks))
+            for ok2, (cid, ci) in zip(oks, metas):
+                if not ok2:
+                    info.setdefault("side_condition_false_calls", []).append(f"{cid}#{ci}")
         b = [x.strip() == "true" for x in mm.group(1).split(";")] if mm else None
         if b is None or len(b) != len(metas):
             info["errors"].append((os.path.basename(path), (se or so)[-300:]))
